@@ -42,6 +42,9 @@ pub fn gen_config(profile: &str, rng: &mut Rng, tier: Tier) -> Config {
 				nc.async_default = r.chance(1, 4);
 				nc.deferred = r.chance(1, 5);
 			},
+			"justice" => {
+				nc.async_default = r.chance(1, 8);
+			},
 			_ => {},
 		}
 		nodes.push(nc);
@@ -120,6 +123,24 @@ pub fn gen_config(profile: &str, rng: &mut Rng, tier: Tier) -> Config {
 		},
 		_ => {},
 	}
+	if profile == "onchain" {
+		w(&mut weights, "ForceClose", *r.pick(&[1, 2, 4]));
+		w(&mut weights, "Mine", *r.pick(&[1, 2, 3]));
+		w(&mut weights, "Relay", 4);
+		w(&mut weights, "Crash", *r.pick(&[0, 0, 1]));
+		w(&mut weights, "ArmCrash", *r.pick(&[0, 0, 1]));
+		w(&mut weights, "SetFee", *r.pick(&[0, 2, 4]));
+	}
+	if profile == "justice" {
+		// a long off-chain history, nothing on chain before the cheat
+		w(&mut weights, "CompleteMon", 30);
+		w(&mut weights, "PersistMgr", 4);
+		w(&mut weights, "Send", 20);
+		w(&mut weights, "SetFee", *r.pick(&[0, 2, 5]));
+		w(&mut weights, "Disconnect", *r.pick(&[0, 1, 2]));
+		w(&mut weights, "Crash", *r.pick(&[0, 0, 1]));
+		w(&mut weights, "Restart", 8);
+	}
 	if profile == "chainstyle" {
 		w(&mut weights, "Mine", *r.pick(&[3, 6]));
 		w(&mut weights, "Reorg", *r.pick(&[1, 2, 4]));
@@ -140,10 +161,17 @@ pub fn gen_config(profile: &str, rng: &mut Rng, tier: Tier) -> Config {
 			w(&mut weights, k, 0);
 		}
 	}
-	let (max_steps, max_payments) = match tier {
+	let (mut max_steps, mut max_payments) = match tier {
 		Tier::Quick => (r.range(120, 400), r.range(2, 10) as usize),
 		Tier::Thorough => (r.range(150, 700), r.range(2, 16) as usize),
 	};
+	if profile == "justice" {
+		max_payments = match tier {
+			Tier::Quick => r.range(3, 16) as usize,
+			Tier::Thorough => r.range(3, 60) as usize,
+		};
+		max_steps = max_steps.max(60 * max_payments as u64 / 2);
+	}
 	Config {
 		profile: profile.to_string(),
 		chan_type,
@@ -443,4 +471,51 @@ pub fn next_action(wd: &World, rng: &mut Rng) -> Option<Action> {
 		},
 		_ => return None,
 	})
+}
+
+/// C06: which revoked commitment the cheater confirms and how.
+pub fn gen_cheat(wd: &World, rng: &mut Rng) -> Option<Action> {
+	let mut cands: Vec<(usize, usize, usize)> = Vec::new();
+	for c in wd.chans.iter() {
+		if !wd.chain.utxos.contains_key(&c.funding) {
+			continue;
+		}
+		for x in [c.a, c.b] {
+			let n = wd.revoked_entries(x, c.idx).len();
+			if n > 0 {
+				cands.push((x, c.idx, n));
+			}
+		}
+	}
+	if cands.is_empty() {
+		return None;
+	}
+	let (n, chan, len) = *rng.pick(&cands);
+	// any age, with some weight on the newest and the oldest revoked state
+	let age = match rng.below(5) {
+		0 => 0,
+		1 => len as u64 - 1,
+		_ => rng.below(len as u64),
+	} as u32;
+	let same_block = if rng.chance(1, 2) { rng.next_u64() as u32 } else { 0 };
+	let later = if rng.chance(2, 3) { rng.next_u64() as u32 } else { 0 };
+	Some(Action::Cheat { n, chan, age, same_block, later, v_late: rng.below(4) as u8 })
+}
+
+/// Confirmation delays, fee-estimator moves and reloads during the on-chain resolution phase.
+pub fn gen_liq_plan(wd: &World, rng: &mut Rng) -> Action {
+	let n = wd.nodes.len();
+	let mut holds = Vec::new();
+	for _ in 0..rng.below(3) {
+		holds.push((rng.below(40) as u32, rng.range(1, 6) as u32));
+	}
+	let mut restarts = Vec::new();
+	for _ in 0..rng.below(3) {
+		restarts.push((rng.below(60) as u32, rng.below(n as u64) as usize));
+	}
+	let mut fees = Vec::new();
+	for _ in 0..rng.below(4) {
+		fees.push((rng.below(50) as u32, rng.below(n as u64) as usize, *rng.pick(&[253u32, 1000, 5000, 12_000, 25_000])));
+	}
+	Action::LiqPlan { holds, restarts, fees }
 }
